@@ -10,6 +10,7 @@ import (
 
 	"github.com/gotd/td/constant"
 	"github.com/gotd/td/fileid"
+	"github.com/gotd/td/tg"
 
 	"verif/harness/hc"
 )
@@ -30,6 +31,14 @@ func facts(f *hc.Facts) {
 	f.Const("typeThumbnail", "fileid", "Thumbnail")
 	f.Const("typeProfilePhoto", "fileid", "ProfilePhoto")
 	f.Const("typePhoto", "fileid", "Photo")
+	for _, n := range []string{"Voice", "Video", "Document", "Sticker", "Audio", "Animation", "VideoNote", "DocumentAsFile"} {
+		f.Const("type"+n, "fileid", n)
+	}
+	f.Const("pssThumbnail", "fileid", "PhotoSizeSourceThumbnail")
+	f.Const("pssDialogPhotoSmall", "fileid", "PhotoSizeSourceDialogPhotoSmall")
+	f.Const("pssDialogPhotoBig", "fileid", "PhotoSizeSourceDialogPhotoBig")
+	wireFacts(f)
+	rleFacts(f)
 }
 
 func genBytes(r *hc.RNG) []byte {
@@ -263,6 +272,83 @@ func run(c *hc.Ctx) error {
 		lines = append(lines, "dec "+hc.Hex(data))
 		inputs = append(inputs, "dec "+hc.Hex(data))
 		impls = append(impls, out)
+	}
+	// ---- 4. constructors: FromDocument / FromPhoto / FromChatPhoto build canonical ids
+	for i := 0; i < c.N(1500, 100000); i++ {
+		var id fileid.FileID
+		var line string
+		ref := genBytes(r)
+		dc := hc.Pick(r, 1, 2, 4, 5, 203, r.Intn(1<<31))
+		switch r.Intn(3) {
+		case 0:
+			doc := &tg.Document{DCID: dc, ID: i64(r), AccessHash: i64(r), FileReference: ref}
+			var codes []string
+			for k := r.Intn(4); k > 0; k-- {
+				switch r.Intn(7) {
+				case 0:
+					doc.Attributes = append(doc.Attributes, &tg.DocumentAttributeAnimated{})
+					codes = append(codes, "a")
+				case 1:
+					doc.Attributes = append(doc.Attributes, &tg.DocumentAttributeSticker{})
+					codes = append(codes, "s")
+				case 2:
+					doc.Attributes = append(doc.Attributes, &tg.DocumentAttributeVideo{})
+					codes = append(codes, "v")
+				case 3:
+					doc.Attributes = append(doc.Attributes, &tg.DocumentAttributeVideo{RoundMessage: true})
+					codes = append(codes, "r")
+				case 4:
+					doc.Attributes = append(doc.Attributes, &tg.DocumentAttributeAudio{})
+					codes = append(codes, "u")
+				case 5:
+					doc.Attributes = append(doc.Attributes, &tg.DocumentAttributeAudio{Voice: true})
+					codes = append(codes, "o")
+				default:
+					doc.Attributes = append(doc.Attributes, &tg.DocumentAttributeFilename{FileName: "x"})
+					codes = append(codes, "f")
+				}
+			}
+			id = fileid.FromDocument(doc)
+			attrs := "-"
+			if len(codes) > 0 {
+				attrs = strings.Join(codes, "")
+			}
+			line = fmt.Sprintf("fromdoc %s %d %d %d %s", attrs, uint32(dc), uint64(doc.ID), uint64(doc.AccessHash), hc.Hex(ref))
+			c.Count("from.document")
+		case 1:
+			ph := &tg.Photo{DCID: dc, ID: i64(r), AccessHash: i64(r), FileReference: ref}
+			th := rune(hc.Pick(r, 'a', 'm', 'x', 'y', 's', 0, 0x1F600))
+			id = fileid.FromPhoto(ph, th)
+			line = fmt.Sprintf("fromphoto %d %d %d %d %s", uint32(th), uint32(dc), uint64(ph.ID), uint64(ph.AccessHash), hc.Hex(ref))
+			c.Count("from.photo")
+		default:
+			peer := constant.TDLibPeerID(i64(r))
+			ah := i64(r)
+			big := r.Bool()
+			cp := &tg.ChatPhoto{DCID: dc, PhotoID: i64(r)}
+			id = fileid.FromChatPhoto(peer, ah, cp, big)
+			b := 0
+			if big {
+				b = 1
+			}
+			line = fmt.Sprintf("fromchat %d %d %d %d %d", b, uint64(peer), uint64(ah), uint32(dc), uint64(cp.PhotoID))
+			c.Count("from.chatphoto")
+		}
+		c.Eval(line, true)
+		s, err := fileid.EncodeFileID(id)
+		if err != nil {
+			c.Fail("encode-error", line, err.Error())
+			continue
+		}
+		back, derr, p := decodeSafe(s)
+		if p != nil {
+			c.Fail("decode-panic", "str "+s, fmt.Sprint(p))
+		} else if derr != nil || !equalID(back, id) {
+			c.Fail("fileid-roundtrip", line+" = enc "+showID(id), fmt.Sprintf("decoded %s err=%v", showID(back), derr))
+		}
+		lines = append(lines, line)
+		inputs = append(inputs, line)
+		impls = append(impls, "canon "+showID(id))
 	}
 	outs, err := c.Drv.Batch(lines)
 	if err != nil {
